@@ -1513,7 +1513,7 @@ func (e *CoreExtension) filterFirst(value interface{}, args ...interface{}) (int
 		return nil, nil
 	case reflect.Map:
 		for _, key := range sortedMapKeys(rv) {
-			return rv.MapIndex(key).Interface(), nil // First value in the fixed key order
+			return mapValueOf(rv, key).Interface(), nil // First value in the fixed key order
 		}
 		return nil, nil
 	}
@@ -1558,7 +1558,7 @@ func (e *CoreExtension) filterLast(value interface{}, args ...interface{}) (inte
 	case reflect.Map:
 		// Last value in the fixed key order (the counterpart of first on maps)
 		if keys := sortedMapKeys(rv); len(keys) > 0 {
-			return rv.MapIndex(keys[len(keys)-1]).Interface(), nil
+			return mapValueOf(rv, keys[len(keys)-1]).Interface(), nil
 		}
 		return nil, nil
 	}
@@ -1911,13 +1911,13 @@ func (e *CoreExtension) filterMerge(value interface{}, args ...interface{}) (int
 		if rv.Type().Key().Kind() == reflect.String && rv.Type().Elem().Kind() != reflect.Interface {
 			merged := make(map[string]interface{}, rv.Len())
 			for _, key := range sortedMapKeys(rv) {
-				merged[key.String()] = rv.MapIndex(key).Interface()
+				merged[key.String()] = mapValueOf(rv, key).Interface()
 			}
 			for _, arg := range args {
 				argRv := reflect.ValueOf(arg)
 				if argRv.Kind() == reflect.Map {
 					for _, key := range sortedMapKeys(argRv) {
-						merged[toString(key.Interface())] = argRv.MapIndex(key).Interface()
+						merged[toString(key.Interface())] = mapValueOf(argRv, key).Interface()
 					}
 				}
 			}
@@ -1929,7 +1929,7 @@ func (e *CoreExtension) filterMerge(value interface{}, args ...interface{}) (int
 
 		// Copy original values
 		for _, key := range sortedMapKeys(rv) {
-			resultMap.SetMapIndex(key, rv.MapIndex(key))
+			resultMap.SetMapIndex(key, mapValueOf(rv, key))
 		}
 
 		// Merge values from the arguments
@@ -1937,7 +1937,7 @@ func (e *CoreExtension) filterMerge(value interface{}, args ...interface{}) (int
 			argRv := reflect.ValueOf(arg)
 			if argRv.Kind() == reflect.Map {
 				for _, key := range sortedMapKeys(argRv) {
-					val := argRv.MapIndex(key)
+					val := mapValueOf(argRv, key)
 					// Entries that do not fit the receiver's key or value type cannot
 					// be stored in a map of that type
 					if !key.Type().AssignableTo(rv.Type().Key()) || !val.Type().AssignableTo(rv.Type().Elem()) {
@@ -2409,7 +2409,7 @@ func (e *CoreExtension) functionMerge(args ...interface{}) (interface{}, error) 
 			baseRv := reflect.ValueOf(base)
 			for _, key := range sortedMapKeys(baseRv) {
 				keyStr := toString(key.Interface())
-				result[keyStr] = baseRv.MapIndex(key).Interface()
+				result[keyStr] = mapValueOf(baseRv, key).Interface()
 			}
 		}
 
@@ -2426,7 +2426,7 @@ func (e *CoreExtension) functionMerge(args ...interface{}) (interface{}, error) 
 				if argRv.Kind() == reflect.Map {
 					for _, key := range sortedMapKeys(argRv) {
 						keyStr := toString(key.Interface())
-						result[keyStr] = argRv.MapIndex(key).Interface()
+						result[keyStr] = mapValueOf(argRv, key).Interface()
 					}
 				}
 			}
